@@ -34,20 +34,12 @@ Definition cw_esc1 (c : N) : cw_bytes :=
 Lemma cw_escape_single c : cw_escape [c] = cw_esc1 c.
 Proof.
   unfold cw_esc1, cw_escape, cw_escape_table, f_cw_escape_table.
-  cbn [fold_left cw_replace_all flat_map fst snd app].
-  destruct (N.eqb_spec c 92) as [->|H1]; [reflexivity|].
-  cbn [fold_left cw_replace_all flat_map fst snd app].
-  destruct (N.eqb_spec c 10) as [->|H2]; [reflexivity|].
-  cbn [fold_left cw_replace_all flat_map fst snd app].
-  destruct (N.eqb_spec c 9) as [->|H3]; [reflexivity|].
-  cbn [fold_left cw_replace_all flat_map fst snd app].
-  destruct (N.eqb_spec c 13) as [->|H4]; [reflexivity|].
-  cbn [fold_left cw_replace_all flat_map fst snd app].
-  destruct (N.eqb_spec c 8) as [->|H5]; [reflexivity|].
-  cbn [fold_left cw_replace_all flat_map fst snd app].
-  destruct (N.eqb_spec c 12) as [->|H6]; [reflexivity|].
-  cbn [fold_left cw_replace_all flat_map fst snd app].
-  destruct (N.eqb_spec c 34) as [->|H7]; reflexivity.
+  (* independent of the order of the passes in the source, as long as they amount to the same map *)
+  repeat (cbn [fold_left cw_replace_all flat_map fst snd app];
+          match goal with
+          | |- context [c =? ?k] => destruct (N.eqb_spec c k) as [->|?]; [reflexivity|]
+          end).
+  reflexivity.
 Qed.
 
 (* ---------------------------------------------------------------- scanning what was emitted *)
@@ -205,4 +197,34 @@ Proof.
   - destruct (cw_ident_whole k) eqn:Hi.
     + apply cw_ident_token; assumption.
     + apply cw_string_token. assumption.
+Qed.
+
+(* ---------------------------------------------------------------- template names after `import` *)
+(* bytes the writer does not escape *)
+Definition cw_plainb (c : N) : bool :=
+  negb ((c =? 92) || (c =? 10) || (c =? 9) || (c =? 13) || (c =? 8) || (c =? 12) || (c =? 34)).
+
+Lemma cw_esc1_plain c : cw_plainb c = true -> cw_esc1 c = [c].
+Proof.
+  unfold cw_plainb, cw_esc1. intros H. apply negb_true_iff in H.
+  repeat (apply orb_false_elim in H; destruct H as [H ?]).
+  repeat match goal with E : (c =? _) = false |- _ => rewrite E; clear E end. reflexivity.
+Qed.
+
+Lemma cw_escape_plain s : forallb cw_plainb s = true -> cw_escape s = s.
+Proof.
+  induction s as [|c s IH]; intros H; [reflexivity|]. cbn [forallb] in H. apply andb_prop in H as [Hc Hs].
+  rewrite cw_escape_cons, cw_escape_single, cw_esc1_plain, IH by assumption. reflexivity.
+Qed.
+
+(* the name after `import` is one string token if it is escaped (proposed fix) or contains no byte that
+   would need escaping (negated signature of the recorded finding import-unescaped) *)
+Theorem cw_import_token esc s rest :
+  cw_nul_free s -> (esc = true \/ forallb cw_plainb s = true) ->
+  cw_next ((if esc then cw_emit_string s else 34 :: s ++ [34]) ++ rest) = NxTok (CwTStr s) rest.
+Proof.
+  intros Hn [->|Hp]; [apply cw_string_token; assumption|].
+  destruct esc; [apply cw_string_token; assumption|].
+  replace (34 :: s ++ [34]) with (cw_emit_string s) by (unfold cw_emit_string; rewrite cw_escape_plain by assumption; reflexivity).
+  apply cw_string_token. assumption.
 Qed.
